@@ -12,6 +12,17 @@ DECODE_FUNCS = [
 BER_TRUST = ["asn1-ber v1.5.5 ReadPacket modelled byte-for-byte (Ber/Parse.lean) and diffed against the real reader in stream `ber`; Real / GeneralizedTime content validation is a parameter",
              "go-ldap DecompileFilter is a parameter of the model; its answer is supplied per case by the harness"]
 
+CONTROL_FUNCS = [
+    "decodeControl", "encodeControls", "ControlString.Encode", "ControlManageDsaIT.Encode", "ControlPaging.Encode",
+    "ControlBeheraPasswordPolicy.Encode", "ControlVChuPasswordMustChange.Encode", "ControlVChuPasswordWarning.Encode",
+    "ControlMicrosoftNotification.Encode", "ControlMicrosoftShowDeleted.Encode", "ControlMicrosoftServerLinkTTL.Encode",
+    "NewControlBeheraPasswordPolicy", "NewControlString", "NewControlPaging", "NewControlManageDsaIT",
+    "ControlPaging.SetCookie", "WithGraceAuthNsRemaining", "WithSecondsBeforeExpiration", "WithErrorCode",
+    "WithCriticality", "WithControlValue", "controlDefaults", "getControlOpts",
+    "ControlBeheraPasswordPolicy.Grace", "ControlBeheraPasswordPolicy.Expire", "ControlBeheraPasswordPolicy.ErrorCode",
+    "BindResponse.SetControls", "SearchResponseDone.SetControls", "packet.controlPacket",
+]
+
 PROPS = {
     "C01": {
         "lean": ["GldapModel.Props.C01"],
@@ -22,6 +33,17 @@ PROPS = {
         ],
         "trusted": BER_TRUST,
         "assumptions": ["filters are compared semantically: the delivered filter string must recompile to the client's filter bytes"],
+    },
+    "C14": {
+        "lean": ["GldapModel.Props.C14"],
+        "audit": "GldapModel/Audit/C14.lean",
+        "inventory": CONTROL_FUNCS,
+        "streams": [
+            {"stream": "ctrl-encode", "n_quick": 20000, "n_thorough": 300000},
+            {"stream": "behera-ctor", "n_quick": 8000, "n_thorough": 100000},
+        ],
+        "trusted": BER_TRUST + ["go-ldap v3.4.6 DecodeControl is the second, independent reader in the harness; it nil-dereferences on a valueless Behera control, which is therefore read only by the RFC-based Lean reader"],
+        "assumptions": ["strconv.FormatInt/ParseInt are modelled at byte level (Proofs/Decimal.lean)"],
     },
     "C02": {
         "lean": ["GldapModel.Props.C02"],
